@@ -1,8 +1,11 @@
 package sim
 
 import (
+	"encoding/hex"
 	"errors"
 	"io"
+	"strconv"
+	"strings"
 	"sync"
 
 	"github.com/scrapli/scrapligo/transport"
@@ -65,6 +68,7 @@ type Transport struct {
 	Writes    [][]byte
 	closed    bool
 	opened    bool
+	start     []byte
 	CloseN    int
 	// ReadLog records the size of each successful read (for evidence / replay).
 	ReadLog []int
@@ -73,6 +77,56 @@ type Transport struct {
 	// ReadGate, when set, is consulted before each read returns data; it may block.
 	ReadGate func()
 	unstall  bool
+
+	// Events is the unified log (in mutex order) of reads, writes and markers: the schedule the
+	// model replays.
+	Events []Event
+}
+
+// Event is one entry of the transport log.
+type Event struct {
+	Kind byte   // 'R' read of N bytes, 'W' write, 'C' call boundary, 'D' deadline, 'E' EOF, 'I' io error
+	N    int    // read size
+	W    []byte // written bytes
+	Emit []byte // device emission in reaction to the write
+}
+
+// Mark appends a marker event ('C' call boundary, 'D' deadline observed).
+func (t *Transport) Mark(kind byte) {
+	t.mu.Lock()
+	defer t.mu.Unlock()
+	t.Events = append(t.Events, Event{Kind: kind})
+}
+
+// LogString renders the event log in the model runner's format.
+func (t *Transport) LogString() string {
+	t.mu.Lock()
+	defer t.mu.Unlock()
+	var sb strings.Builder
+	for i, e := range t.Events {
+		if i > 0 {
+			sb.WriteByte(',')
+		}
+		switch e.Kind {
+		case 'R':
+			sb.WriteString("R" + strconv.Itoa(e.N))
+		case 'W':
+			sb.WriteString("W" + hex.EncodeToString(e.W) + "/" + hex.EncodeToString(e.Emit))
+		default:
+			sb.WriteByte(e.Kind)
+		}
+	}
+	if len(t.Events) == 0 {
+		return "-"
+	}
+	return sb.String()
+}
+
+// StartBytes is what the device emitted when the connection came up.
+func (t *Transport) StartBytes() []byte {
+	t.mu.Lock()
+	defer t.mu.Unlock()
+	return t.start
 }
 
 func NewTransport(dev Device) *Transport {
@@ -87,7 +141,9 @@ func (t *Transport) Open(_ *transport.Args) error {
 	t.mu.Lock()
 	defer t.mu.Unlock()
 	t.opened = true
-	t.pending = append(t.pending, t.Dev.Start()...)
+	st := t.Dev.Start()
+	t.start = Flatten(st)
+	t.pending = append(t.pending, st...)
 	t.cond.Broadcast()
 	return nil
 }
@@ -150,8 +206,10 @@ func (t *Transport) Read(n int) ([]byte, error) {
 		if t.LoseAfter >= 0 && t.Delivered >= t.LoseAfter {
 			switch t.Loss {
 			case LossEOF:
+				t.Events = append(t.Events, Event{Kind: 'E'})
 				return nil, io.EOF
 			case LossErr:
+				t.Events = append(t.Events, Event{Kind: 'I'})
 				return nil, ErrSimIO
 			}
 		}
@@ -200,6 +258,7 @@ func (t *Transport) Read(n int) ([]byte, error) {
 	}
 	t.Delivered += len(out)
 	t.ReadLog = append(t.ReadLog, len(out))
+	t.Events = append(t.Events, Event{Kind: 'R', N: len(out)})
 	return out, nil
 }
 
@@ -215,7 +274,9 @@ func (t *Transport) Write(b []byte) error {
 	}
 	cp := append([]byte(nil), b...)
 	t.Writes = append(t.Writes, cp)
-	t.pending = append(t.pending, t.Dev.Feed(cp)...)
+	em := t.Dev.Feed(cp)
+	t.pending = append(t.pending, em...)
+	t.Events = append(t.Events, Event{Kind: 'W', W: cp, Emit: Flatten(em)})
 	n := len(t.Writes)
 	t.cond.Broadcast()
 	hook := t.WriteHook
